@@ -293,7 +293,7 @@ func rulePanicInventory(w *World, r *Report) {
 			}
 		}
 	}
-	r.Expect("explicit panics reachable from the entry points", n, 5)
+	r.Expect("explicit panics reachable from the entry points", n, 3)
 }
 
 // panicMessage extracts the constant part of a panic argument (string constant, or concatenation with a constant).
@@ -371,7 +371,7 @@ func ruleRegistryAgreement(w *World, r *Report) {
 			}
 		}
 	}
-	r.Expect("unconditional node type assertions in registered render functions", n, 15)
+	r.Expect("unconditional node type assertions in registered render functions", n, 8)
 }
 
 func kindGlobalReturned(kf *ssa.Function) *ssa.Global {
@@ -460,5 +460,5 @@ func ruleAttributeAssertions(w *World, r *Report) {
 		}
 	}
 	r.Expect("attribute lookups in code reachable from Parse", nLookups, 2)
-	r.Expect("type assertions on looked-up attribute values", nAsserts, 2)
+	r.Expect("type assertions on looked-up attribute values", nAsserts, 1)
 }
